@@ -28,6 +28,44 @@ CHECKS = {
         note="Trusted: X691Prim.tla as a reading of X.691 (cross-checked against the repository's third-party fixtures in C02), TLC, Big.tla. "
              "Inside the input classes of the two open findings only the persistence of the deviation is checked.",
         technique="TLA+ reference encoder + TLC case enumeration replayed into the real code + trace validation + design-level model checking"),
+    "C01": dict(
+        category="model_checking",
+        text="Zoo.tla/X691.tla define a bounded universe of schemas and values; TLC (MC_Uper) enumerates every (type, value) and computes the "
+             "reference stream. The zoo is compiled from ASN.1 text by the real asn_to_rust! macro; every vector and every history of 3 "
+             "mixed values in one writer/one reader is executed: the reader must return the written values, consume exactly the written "
+             "bits (sentinel after each message) and end with 0 bits remaining, and the stream must equal the concatenated reference "
+             "encodings. Large lengths cover every fragment-count class.",
+        design_ref="DESIGN.md section 7, C01",
+        note="Bounded universe (Zoo.tla); oracle = X691.tla (validated against 60 third-party fixtures). Open findings limit the >= 16K "
+             "classes of SEQUENCE OF / known-multiplier strings / BIT STRING to 'deviation persists'.",
+        technique="TLA+ reference model + TLC enumeration of schemas/values replayed into macro-generated code"),
+    "C02": dict(
+        category="model_checking",
+        text="X691.tla is the independent reference encoder written from the standard, itself validated by Trace_Fixtures.tla against 60 "
+             "third-party (asn1.io playground) expectations found in the repository. For every type of the zoo inside the conformance "
+             "profile and every value of its family the real writer's bits must equal Enc(t, v) and the real reader, fed the reference "
+             "bits, must return v and stop exactly at their end.",
+        design_ref="DESIGN.md sections 4 and 7, C02",
+        note="Trusted: my reading of X.691 as far as it is not pinned by the fixtures; TLC; zoogen's printing of the types as ASN.1 text.",
+        technique="TLA+ reference encoder validated on third-party fixtures + TLC enumeration replayed into macro-generated code"),
+    "C03": dict(
+        category="model_checking",
+        text="Bounded-exhaustive exactly as quantified: all SEQUENCE shapes with <= 3 (quick) / 4 (thorough) components x modes x marker "
+             "positions x all presence patterns (plus leaf-class variations). TLC checks the preamble property on the reference bits "
+             "(RefOk) and the real generated code must produce exactly these bits, decode them to the same pattern, and refuse exactly "
+             "the inconsistent patterns with ExtensionFieldsInconsistent.",
+        design_ref="DESIGN.md section 7, C03",
+        note="Leaf type INTEGER(0..7); thorough tier is N = 4 (1 155 shapes) instead of the 5 named in the quantifier because compiling "
+             "the N = 5 zoo (2 004 more types) exceeds a sensible check time; stated in DESIGN.md.",
+        technique="TLC bounded-exhaustive shape/pattern enumeration replayed into macro-generated code"),
+    "C06": dict(
+        category="model_checking",
+        text="X691!Enc is partial: values outside a non-extensible constraint have no encoding. TLC enumerates for every constrained zoo "
+             "type the just-outside / far-outside values, sizes and illegal characters; the real writer must return Err for each (an Ok "
+             "is decoded and reported), and out-of-root values of extensible constraints must round-trip in the extension form.",
+        design_ref="DESIGN.md section 7, C06",
+        note="Values that cannot be constructed in the generated Rust type are counted, not judged.",
+        technique="TLC enumeration of out-of-constraint values replayed into macro-generated code"),
 }
 
 NOT_APPLICABLE = {}
